@@ -515,7 +515,7 @@ def check_cache_keys(ctx, rule="R5-cache-key", about=None):
                 # memo pattern: the same dictionary is probed with `in` / .get / [] in this function
                 probed = False
                 for n in _own_nodes(fn):
-                    if isinstance(n, ast.Compare) and any(isinstance(o, ast.In) for o in n.ops) and any(ast.unparse(c) == cname for c in n.comparators): probed = True
+                    if isinstance(n, ast.Compare) and any(isinstance(o, (ast.In, ast.NotIn)) for o in n.ops) and any(ast.unparse(c) == cname for c in n.comparators): probed = True
                     if isinstance(n, ast.Call) and isinstance(n.func, ast.Attribute) and n.func.attr == "get" and ast.unparse(n.func.value) == cname: probed = True
                 if not probed: continue
                 found += 1
@@ -767,7 +767,7 @@ def check_assembly(ctx, rule="R6-assembly", only=None):
 
 
 # ---------------------------------------------------------------------------- R8 single-bin result fields
-def check_single_fields(ctx, rule="R8-single-bin"):
+def check_single_fields(ctx, rule="R8-single-bin", only=None):
     repo = ctx.repo
     fkey = AN + ".compute_single_bin"; fn = repo.get(fkey)
     where = repo.where(fkey, fn)
@@ -791,6 +791,7 @@ def check_single_fields(ctx, rule="R8-single-bin"):
         expect = {"f": X.var("freq"), "L": L, "K": K, "navg": K, "XX": out("MXX"), "YY": out("MYY"),
                   "XY": out("mu_r") + X(IMAG) * out("mu_i"), "S12": S1 * S1, "S2": S2, "M2": out("M2")}
         for k, want in expect.items():
+            if only is not None and k not in only: continue
             c = f"{fkey}[{tag}:{k}]"
             v = select(d.get(k), choose) if d.get(k) is not None else None
             A = as_arr(v) if v is not None else None
@@ -802,6 +803,7 @@ def check_single_fields(ctx, rule="R8-single-bin"):
             if is_opaque(el) or isinstance(el, PV) or to_x(el) is None:
                 ctx.unknown(rule, c, f"field {k}: {el!r}"[:200], where); continue
             ctx.compare(rule, c, to_x(el), want, where)
+        if only is not None and "D" not in only: continue
         # D is the one-element list holding the very starts handed to the kernel
         v = select(d.get("D"), choose)
         A = as_arr(v)
@@ -812,6 +814,7 @@ def check_single_fields(ctx, rule="R8-single-bin"):
             st_, why = same_arr(inner, reference_starts(N, L, K))
             ctx.ob(rule, c, st_, why, where)
         # degenerate request: one segment covering the whole record
+    if only is not None and "D" not in only: return
     # single segment when the request covers the whole record
     try:
         R, r = run_single(repo, 0, False, "numba", True, True)
